@@ -418,8 +418,8 @@ def gen_tree(r, depth=0, budget=None):
 class ChoiceLog:
     """The writer's choices, one entry per node in document order (the `choices` argument of `c04 emit`): element `p` `<br>` /
     `s` `<br/>` / `r` `<br></br>` / `o` not void; text: one `.`-joined entry per character (`l` literal, `dZ` decimal with Z
-    leading zeros, `hXDZ` hexadecimal with upper-case x / digits, `nNAME` named); special string `u` / `w` keyword case.
-    `rng` (optional) is a SECOND random source for variation the plain writer does not have (leading zeros, keyword case):
+    leading zeros, `hXDZ` hexadecimal with upper-case x / digits, `nNAME` named); special string `k` + one 0/1 per keyword letter (1 = upper case).
+    `rng` (optional) is a SECOND random source for variation the plain writer does not have (leading zeros):
     the writer's own random stream is consumed exactly as without logging."""
 
     def __init__(self, rng=None):
@@ -482,29 +482,29 @@ def write(r, nodes, offsets, pos, in_raw=False, log=None):
             s = f"<!--{nd[1]}-->"
             parts.append(s); pos[0] += len(s)
             if log is not None:
-                log.entries.append("u")
+                log.entries.append("k")
         elif nd[0] == "cd":
-            up = True if log is None or log.rng is None else log.rng.random() < 0.7
-            s = f"<![{'CDATA' if up else 'cdata'}[{nd[1]}]]>"
+            kw = r.choice(['CDATA', 'CDATA', 'cdata', 'CData'])       # the keyword's case is the writer's choice
+            s = f"<![{kw}[{nd[1]}]]>"
             parts.append(s); pos[0] += len(s)
             if log is not None:
-                log.entries.append("u" if up else "w")
+                log.entries.append("k" + "".join("1" if ch.isupper() else "0" for ch in kw))
         elif nd[0] == "pi":
             s = f"<?{nd[1]}>"
             parts.append(s); pos[0] += len(s)
             if log is not None:
-                log.entries.append("u")
+                log.entries.append("k")
         elif nd[0] == "dt":
-            up = r.random() < 0.5
-            s = f"<!{'DOCTYPE' if up else 'doctype'} {nd[1]}>"
+            kw = r.choice(['DOCTYPE', 'DOCTYPE', 'doctype', 'DocType', 'Doctype'])
+            s = f"<!{kw} {nd[1]}>"
             parts.append(s); pos[0] += len(s)
             if log is not None:
-                log.entries.append("u" if up else "w")
+                log.entries.append("k" + "".join("1" if ch.isupper() else "0" for ch in kw))
         elif nd[0] == "ud":
             s = f"<![{nd[1]}]>"
             parts.append(s); pos[0] += len(s)
             if log is not None:
-                log.entries.append("u")
+                log.entries.append("k")
         else:
             _, name, attrs, kids = nd
             offsets.append(pos[0])
@@ -672,7 +672,7 @@ def writer_stream(ctx, drv):
         # the cutting of literal text into chunks is the tokenizer's choice, not the writer's: exercise the model's with random cuts
         ent = []
         for e in log.entries:
-            if e[:1] in ("l", "d", "h", "n") and e not in ("o",):
+            if e[:1] in ("l", "d", "h", "n"):
                 e = ".".join(("c" if (c == "l" and x.random() < 0.15) else c) for c in e.split("."))
             ent.append(e)
         try:
@@ -695,6 +695,9 @@ def writer_stream(ctx, drv):
         kinds = {e.split(".")[0][:1] for e in ent} | {c[:1] for e in ent for c in e.split(".")}
         for k in sorted(kinds & set("psrdhnc")):
             ctx.count("writer:choice:" + {"p": "<br>", "s": "<br/>", "r": "<br></br>", "d": "decimal", "h": "hex", "n": "named", "c": "chunk-cut"}[k])
+        for e in ent:
+            if e[:1] == "k" and len(e) > 1:
+                ctx.count("writer:choice:keyword-" + ("upper" if "0" not in e else "lower" if "1" not in e else "mixed-case"))
         ctx.case(("writer", text, json.dumps(opts, sort_keys=True)),
                  sample={"text": text, "choices": ";".join(ent)[:200], "tree": got[:200]} if len(ctx.samples) < 8 else None)
     rep = drv.ask(lines)
@@ -747,7 +750,9 @@ SOUP_TOKENS = ["<", ">", "</", "/>", "<a", "<b", "<br", "<br>", "<br/>", "</br>"
                "</script>", "<textarea>", "x", " ", "\n", "=", "\"", "'", "&", "&#", "&#x", "&amp;", "&lt", "&#65;", "&#150;", "&#x110000;",
                "&#0;", "&#xD800;", ";", "<!--", "-->", "--", "<![CDATA[", "]]>", "<!DOCTYPE html>", "<!doctype", "<!x>", "<?", "?>", "<![if x]>",
                "id", "k=v", "k='v'", "k=\"v\" k=w", "é", "&eacute;", "&notit;", "&nosuch;", "<img src=x>", "<hr/>", "<input", "</input>",
-               "<rt>", "<style>", "</style>", "</", "<a/>", "<A HREF=X>", "\r\n", "\x00"]
+               "<rt>", "<style>", "</style>", "</", "<a/>", "<A HREF=X>", "\r\n", "\x00",
+               # marked sections whose keyword is not upper case (the tokenizer reports them through the same callback)
+               "<![cdata[", "<![CData[x]]>", "<![cdata[a<b]]>", "<![Cdata[]]>", "<![CDATA [x]]>", "<![ CDATA[x]]>"]
 
 
 def _cp1252_ok(n):
@@ -829,7 +834,8 @@ def run(ctx: Ctx):
     grid = []
     for dup in ("replace", "ignore", "acc"):
         for void in (VOID_DEFAULT(), "*", ["a", "br"], []):
-            for cont, pre in ((CONT, PRES), ({}, []), ({"b": 1, "pre": 6}, ["a"])):
+            # the last one has a name in BOTH tables (the stock sets are disjoint): both context stacks are popped when it closes
+            for cont, pre in ((CONT, PRES), ({}, []), ({"b": 1, "pre": 6}, ["a"]), ({"pre": 6, "b": 9, "script": 6}, ["pre", "b"])):
                 for ln in (1, 0):
                     grid.append({"dup": dup, "void": void, "cont": cont, "pre": pre, "lines": ln})
     for i in range(ctx.n(1500, 20000)):
